@@ -533,6 +533,14 @@ def run_uniform(ctx, hook):
                                 # them are only approximately (max - min) / n (the node count is documented to be rounded)
                                 alts['min,max,cell_sides(1+4e-8)'] = odl.uniform_partition(min_pt=mn, max_pt=mx, cell_sides=cs * (1 + 4e-8), **kw)
                                 alts['min,max,cell_sides(1-3e-7)'] = odl.uniform_partition(min_pt=mn, max_pt=mx, cell_sides=cs * (1 - 3e-7), **kw)
+                                # all four given: consistent values are accepted and mean the same partition ...
+                                alts['min,max,shape,cell_sides'] = odl.uniform_partition(min_pt=mn, max_pt=mx, shape=shape, cell_sides=cs, **kw)
+                                # ... inconsistent ones (upper limit off by 0.3 cells) are refused
+                                try:
+                                    odl.uniform_partition(min_pt=mn, max_pt=np.asarray(mx, float) + 0.3 * np.asarray(cs), shape=shape, cell_sides=cs, **kw)
+                                    ctx.violation('uniform_partition', '%s;min,max,shape,cell_sides' % lname, 'bad-input-accepted', what='max_pt off by 0.3 cells')
+                                except ValueError:
+                                    pass
                                 for name, q in alts.items():
                                     if q.shape != p.shape or not q.approx_equals(p, atol=1e-9 * max(1.0, np.abs(mx).max(), np.abs(mn).max())):
                                         ctx.violation('uniform_partition', '%s;%s' % (lname, name), 'parameter-subset-differs', shape=shape, nob=nob_l)
